@@ -37,15 +37,17 @@ type Config struct {
 	Deep bool `json:"all_sequences_full_length"`
 	// Family configs also run the near-equal text families (alphabet.go).
 	Family bool `json:"family"`
+	// HeavyQuick: the family configs on which the long-text families run in the quick tier.
+	HeavyQuick bool `json:"heavy_families_in_quick"`
 }
 
 var configs = []Config{
 	{Name: "own-map", ApqKind: "own"},
-	{Name: "mapcache", ApqKind: "mapcache", Deep: true, Family: true},
+	{Name: "mapcache", ApqKind: "mapcache", Deep: true, Family: true, HeavyQuick: true},
 	{Name: "lru1", ApqKind: "lru", ApqCap: 1, Deep: true, Family: true},
 	{Name: "lru2", ApqKind: "lru", ApqCap: 2, Deep: true},
 	{Name: "lru3", ApqKind: "lru", ApqCap: 3},
-	{Name: "mapcache+qc2", ApqKind: "mapcache", QC: true, QCCap: 2, Deep: true, Family: true},
+	{Name: "mapcache+qc2", ApqKind: "mapcache", QC: true, QCCap: 2, Deep: true, Family: true, HeavyQuick: true},
 	{Name: "lru2+qc1", ApqKind: "lru", ApqCap: 2, QC: true, QCCap: 1, Deep: true, Family: true},
 	{Name: "lru1+qc2", ApqKind: "lru", ApqCap: 1, QC: true, QCCap: 2, Family: true},
 }
@@ -76,10 +78,18 @@ type rec[T any] struct {
 	show     func(T) string
 	problems []Problem
 	calls    int
+	log      []cacheCall // calls made by gqlgen since the harness last cleared it
+}
+
+type cacheCall struct {
+	Op  string // Get | Add
+	Key string
+	Val any // Add only
 }
 
 func (r *rec[T]) Get(ctx context.Context, k string) (T, bool) {
 	r.calls++
+	r.log = append(r.log, cacheCall{Op: "Get", Key: k})
 	v, ok := r.inner.Get(ctx, k)
 	mv, mok := r.mirror.Get(k)
 	if ok != mok || (ok && !r.same(v, mv)) {
@@ -97,6 +107,7 @@ func (r *rec[T]) Get(ctx context.Context, k string) (T, bool) {
 
 func (r *rec[T]) Add(ctx context.Context, k string, v T) {
 	r.calls++
+	r.log = append(r.log, cacheCall{Op: "Add", Key: k, Val: v})
 	r.inner.Add(ctx, k, v)
 	r.mirror.Add(k, v)
 }
@@ -273,6 +284,9 @@ func buildRequest(e Event) *http.Request {
 		if ext != "" {
 			v.Set("extensions", ext)
 		}
+		if e.Op != "" {
+			v.Set("operationName", e.Op)
+		}
 		r, _ := http.NewRequest("GET", "/query?"+v.Encode(), nil)
 		return r
 	}
@@ -283,6 +297,9 @@ func buildRequest(e Event) *http.Request {
 	}
 	if ext != "" {
 		parts = append(parts, `"extensions":`+ext)
+	}
+	if e.Op != "" {
+		parts = append(parts, `"operationName":`+jsonOf(e.Op))
 	}
 	r, _ := http.NewRequest("POST", "/query", strings.NewReader("{"+strings.Join(parts, ",")+"}"))
 	r.Header.Set("Content-Type", "application/json")
@@ -348,7 +365,7 @@ func judge(e Event, pred Pred, o Obs, before, after, modelAfter string, diverged
 	executes := false
 	switch pred.Class {
 	case "exec":
-		spec := textInfo[pred.Text]
+		spec := meaning(pred.Text, e.Op)
 		if want := spec.Data[e.Method]; want != "" {
 			executes = true
 			if o.Class != "exec" || o.Data != want {
@@ -385,13 +402,58 @@ func judge(e Event, pred Pred, o Obs, before, after, modelAfter string, diverged
 		okHist := false
 		for _, h := range history {
 			if h.Ext == "ok" && h.Text != "" && h.Hash == e.Hash {
-				if d := textInfo[h.Text].Data[e.Method]; d != "" && d == o.Data {
+				if d := meaning(h.Text, e.Op).Data[e.Method]; d != "" && d == o.Data {
 					okHist = true
 				}
 			}
 		}
 		if !okHist {
 			bad("hash-only-ran-text-never-sent-with-that-hash", "hash %s produced data %s", nick(e.Hash), o.Data)
+		}
+	}
+	return ps
+}
+
+// exactKeys: the caches may only ever be addressed with the request's own strings, byte for byte -
+// the APQ cache with the client's hash (and, on Add, the client's text), the query-document cache
+// with the exact text that is being run (and, on Add, the parse of that text). This does not need
+// two texts that actually collide under some lossy key: any key that is not the text shows here.
+func exactKeys(s *server, e Event, pred Pred) []Problem {
+	var ps []Problem
+	bad := func(sig, format string, a ...any) {
+		ps = append(ps, Problem{Sig: sig + "|" + e.Kind, What: fmt.Sprintf("event %q: ", e.Name) + fmt.Sprintf(format, a...)})
+	}
+	for _, c := range s.apq.log {
+		// (an extension the model reads as malformed has no hash to compare a lookup with; what
+		// matters there is that nothing is stored, which is checked here, and the state comparison)
+		if (e.Ext == "ok" && c.Key != e.Hash) || (e.Ext != "ok" && c.Op == "Add") {
+			bad("apq-cache-addressed-with-key-that-is-not-the-request-hash", "%s(%s), the request's hash is %s", c.Op, nick(c.Key), nick(e.Hash))
+		}
+		if v, _ := c.Val.(string); c.Op == "Add" && v != e.Text {
+			bad("apq-cache-stores-text-that-is-not-the-request-text", "Add(%s, %s), the request's text is %s", nick(c.Key), nick(v), nick(e.Text))
+		}
+	}
+	if s.qc != nil {
+		var fresh string
+		for _, c := range s.qc.log {
+			want := e.Text // a request that is not predicted to run anything can only be parsing its own text
+			if pred.Class == "exec" {
+				want = pred.Text
+			}
+			if c.Key != want {
+				bad("query-cache-addressed-with-key-that-is-not-the-text", "%s(%s), the text being run is %s", c.Op, nick(c.Key), nick(want))
+				continue
+			}
+			if c.Op == "Add" {
+				if fresh == "" {
+					if d, err := parser.ParseQuery(&ast.Source{Input: want}); err == nil {
+						fresh = canonDoc(d)
+					}
+				}
+				if d, _ := c.Val.(*ast.QueryDocument); d == nil || canonDoc(d) != fresh {
+					bad("query-cache-stores-document-that-is-not-the-parse-of-the-text", "Add(%s, ...)", nick(c.Key))
+				}
+			}
 		}
 	}
 	return ps
@@ -439,10 +501,18 @@ func (w *worker) runTrace(cfg Config, evs []Event, universe []string, allSteps b
 				valsBefore[k] = v
 			}
 		}
+		s.apq.log = nil
+		if s.qc != nil {
+			s.qc.log = nil
+		}
 		o := w.send(s, e)
 		pred := m.Step(e)
 		after := s.stateKey()
 		if allSteps || i == len(evs)-1 {
+			for _, p := range exactKeys(s, e, pred) {
+				p.Step = i
+				res.Problems = append(res.Problems, p)
+			}
 			for _, p := range judge(e, pred, o, before, after, m.Key(), diverged, evs[:i]) {
 				p.Step = i
 				res.Problems = append(res.Problems, p)
